@@ -67,7 +67,7 @@ def gen_cases(ctx):
 def evaluate(ctx, cases, res):
     from txdbus import marshal, error
     cases = list(cases)
-    lines = ['(1 %s)' % common.dump(s) for s in cases]
+    lines = ['(18 %s)' % common.dump(s) for s in cases]
     outs = common.run_model(lines)
     legacy_diff = 0
     dist = {'accepted': [0] * 5, 'len_hist': {}}
